@@ -225,7 +225,7 @@ def t3u(ctx):
             yield Ob(key + ":%d" % n, ok, "loop head bb%d: %s (tokens: %s)" % (h, "progress token on every path" if ok else "NO progress token on some path", toks), b.loc(h))
 
 
-@rule("C07-T4", "C07", 3, "bounded retry: in the three allocation bodies the slow-path retry loop increments a counter on every cycle and exits when it equals max_retries - 1")
+@rule("C07-T4", "C07", 3, "bounded retry: in the three allocation bodies the slow-path retry loop increments a counter on every cycle and exits when it reaches the bound computed from max_retries")
 def t4(ctx):
     SELF = ("param", 0, "self")
     for name in ("alloc_bytes_in", "alloc_aligned_bytes_in", "alloc_in"):
@@ -241,11 +241,13 @@ def t4(ctx):
                     if nv is not None and term_eq(nv, add(v, const(1))):
                         # exit test on the same counter
                         body = b.natural_loop((u, h))
-                        exits = [c for x, c in res.conds.items() if x in body and tag(c) == "cmp" and c[1] == "Eq" and v in (c[2], c[3]) and mentions(c, field(SELF, "max_retries"))]
+                        # counter == bound, counter >= bound (or the mirrored spellings), the bound being a function of max_retries only
+                        exits = [c for x, c in res.conds.items() if x in body and tag(c) == "cmp" and mentions(c, field(SELF, "max_retries")) and
+                                 ((c[1] in ("Eq", "Ge", "Gt") and c[2] == v and not mentions(c[3], v)) or (c[1] in ("Eq", "Le", "Lt") and c[3] == v and not mentions(c[2], v)))]
                         # the exit edge leaves the loop
                         if exits:
                             found = True
-        yield Ob(key_of("C07-T4", b.path, "bounded-retry"), found, "retry counter += 1 on the back edge and the loop exits on counter == max_retries - 1", b.loc())
+        yield Ob(key_of("C07-T4", b.path, "bounded-retry"), found, "retry counter += 1 on the back edge and the loop exits when the counter reaches a bound computed from max_retries", b.loc())
 
 
 @rule("C07-T5", "C07", 6, "the in-band marker is unambiguous: the size half REMOVED (0) of a linked node word is produced only by a mark CAS - every node published by "
